@@ -50,6 +50,7 @@ func loadKnown(dir string) knownFile {
 }
 
 func report(a RunArgs, eng Engine, engName string, info Info, results []*Result, inconcl []string, t0 time.Time) int {
+	var caseInconcl []string
 	known := loadKnown(a.VerifDir)
 	isMax := map[string]bool{}
 	for _, k := range info.MaxEventKeys {
@@ -108,7 +109,7 @@ func report(a RunArgs, eng Engine, engName string, info Info, results []*Result,
 			tagCount[t]++
 		}
 		for _, m := range r.Inconclusive {
-			inconcl = append(inconcl, fmt.Sprintf("case %d (%s): %s", r.Index, r.Name, m))
+			caseInconcl = append(caseInconcl, fmt.Sprintf("case %d (%s): %s", r.Index, r.Name, m))
 		}
 		for _, v := range r.Violations {
 			matched := false
@@ -123,6 +124,20 @@ func report(a RunArgs, eng Engine, engName string, info Info, results []*Result,
 			if !matched {
 				viols = append(viols, vrec{r, v})
 			}
+		}
+	}
+	// A case the harness could not judge (its generator failed, its own validators disagree) is inconclusive for that
+	// case only: it is listed in the evidence and on the output; the run as a whole becomes inconclusive when there are
+	// more than a handful of them (more than 2 and more than one case in 2000).
+	if len(caseInconcl) > 0 {
+		events["cases_not_judged"] = len(caseInconcl)
+		for i, m := range caseInconcl {
+			if i < 5 {
+				fmt.Printf("NOTE property=%s not judged: %s\n", a.Prop, firstLines(m, 2))
+			}
+		}
+		if len(caseInconcl) > 2 && len(caseInconcl)*2000 > len(results) {
+			inconcl = append(inconcl, caseInconcl...)
 		}
 	}
 	if a.Replay == "" {
@@ -238,6 +253,7 @@ func report(a RunArgs, eng Engine, engName string, info Info, results []*Result,
 			"engine":              engName,
 			"known_findings_seen": knownList,
 			"inconclusive":        inconcl,
+			"cases_not_judged":    caseInconcl,
 			"case_tags":           tagCount,
 		}
 		if len(info.AllCells) > 0 || len(cells) > 0 {
